@@ -50,7 +50,8 @@ def hexh_stratum(ctx, d, n):
             ops = [name] if pos == 0 else [rng.choice(["%", "a", "0x"]), name]
         else:
             # Intel-style hex literal names: 'ah' -> register, but '0ah' / '10h' name the immediates 0x0a / 0x10
-            name = rng.choice(["0ah", "0bh", "0ch", "1h", "10h"])
+            # ... spelled with a lower-case h; "10H" is a name like any other (names are case-sensitive) and occurs in no operand here
+            name = rng.choice(["0ah", "0bh", "0ch", "1h", "10h", "10H", "0AH", "1H", "0aH", "100H"])
             ops = rng.choice([[name], [name, "%"], ["%", name], [name, name]])
         d.run_pattern([{insts[k].mnem: ops}], "base", True)
 
